@@ -849,12 +849,14 @@ func genKflEval(r *Rand, tier string, emit func(sx.Sx)) {
 			}
 		}
 	}
-	// strings that strconv.ParseFloat reads as an infinity ("Infinity", "inf", "+Inf", "-INF" ...) under the ordering
-	// operators: the numeric coercion of a string is ParseFloat, and an infinity orders beyond every number
+	// strings that strconv.ParseFloat reads as an infinity ("Infinity", "inf", "+Inf", "-INF" ...) or as NaN under the ordering
+	// operators: the numeric coercion of a string is ParseFloat; an infinity orders beyond every number, nothing holds of a NaN
 	{
 		ident := func(p string) node { return callNode(p, sx.A("noparams"), sx.A("nosel"), p) }
 		obj := func(kv ...sx.Sx) sx.Sx { return sx.L(append([]sx.Sx{sx.A("o")}, pairs(kv)...)...) }
-		for _, inf := range []string{"Infinity", "inf", "Inf", "INF", "+Inf", "-Infinity", "-inf", "infinity", "Infinit", "in", "+", "-"} {
+		for _, inf := range []string{"Infinity", "inf", "Inf", "INF", "+Inf", "-Infinity", "-inf", "infinity", "Infinit", "in", "+", "-",
+			// "nan" in any case is ParseFloat's NaN, of which no ordering holds; with a sign or a suffix it is no number (0)
+			"NaN", "nan", "NAN", "+nan", "-NaN", "nanx", "na"} {
 			for _, op := range []string{">=", "<=", ">", "<"} {
 				for _, lit := range []string{"100", "0", "123456789"} {
 					for _, pth := range []string{"q", "qs.*"} {
